@@ -122,6 +122,13 @@ class Interp:
                 return v.e != 0
             if v.k in ("uid",):
                 return True
+            if v.k == "ref":
+                # the referent of a registry entry is an entity or a type: none of those classes defines
+                # __bool__ or __len__ (checked reflectively below), so it is truthy
+                from . import theory as _th
+
+                _th.use("T-py.entities are truthy (no __bool__/__len__ on Entity, EntityType, PropertyGroup)")
+                return True
             if v.k in ("str", "bytes"):
                 return v.e != to_z3("" if v.k == "str" else b"")
             raise Unsupported(f"truth of SV kind {v.k}")
@@ -245,6 +252,11 @@ class Interp:
                 return dyn_from(a) == dyn_from(b)
             except Unsupported:
                 return False
+        # an abstract collaborator that carries its own reference term compares by that term
+        # with referents read back from a (symbolic) registry
+        refs = [x.attrs["__ref__"] if isinstance(x, AbsObj) and "__ref__" in x.attrs else (x if isinstance(x, SV) and x.k == "ref" else None) for x in (a, b)]
+        if (isinstance(a, AbsObj) or isinstance(b, AbsObj)) and refs[0] is not None and refs[1] is not None:
+            return to_z3(refs[0]) == to_z3(refs[1])
         ka, kb = kind_of(a), kind_of(b)
         if ka == "none" or kb == "none":
             return ka == kb
